@@ -14,6 +14,13 @@ _state = {}
 
 
 def init():
+    try:
+        _init()
+    except BaseException as e:     # never let a pool initializer die (the pool would respawn forever)
+        _state['init_error'] = "%s: %s" % (type(e).__name__, e)
+
+
+def _init():
     sys.dont_write_bytecode = True
     for p in (REPO, os.path.join(HERE, '.deps'), HERE, os.path.join(HERE, 'symnp')):
         if p in sys.path:
@@ -50,6 +57,11 @@ def run_template(job):
     if not _state:
         init()
     t = job['t']
+    if 'init_error' in _state:
+        return {'name': t['name'], 'prop': t['prop'], 'fn': t['fn'], 'params': t['params'], 'exclude': [], 'status': 'error',
+                'error': 'cannot import dimarray over the numpy model: ' + _state['init_error'], 'paths': 0, 'verified': 0, 'vacuous': 0,
+                'aborted': 0, 'reasons': [], 'forks': 0, 'decisions': 0, 'q_sat': 0, 'q_unsat': 0, 'q_unknown': 0, 'solver_s': 0.0,
+                'functions': [], 'witnesses': [], 'cex': None, 'wall_s': 0.0}
     np, da, symx, ctxmod = _state['np'], _state['da'], _state['symx'], _state['ctxmod']
     out = {'name': t['name'], 'prop': t['prop'], 'fn': t['fn'], 'params': t['params'], 'exclude': list(job.get('exclude', ()))}
     t0 = time.time()
